@@ -63,6 +63,8 @@ def check(ctx):
     ctx.rule("C03-H", "a node kind that a parent selects its children by (li under ol, dt/dd under dl, tbody/tr/td under "
              "table/tbody/tr) is never wrapped into another kind by insert_child (a wrapped child would be filtered out)")
     ctx.guard("C03-F", widths.rule_min_size_matches_shrink, "C03-F")
+    ctx.guard("C03-F", widths.rule_estimate_merge, "C03-F")
+    ctx.guard("C03-F", widths.rule_stacked_cells_full_width, "C03-F")
     ctx.guard("C03-H", rule_h)
     for rid, fn in (("C03-A", rule_a), ("C03-B", rule_b), ("C03-C", rule_c), ("C03-D", rule_d), ("C03-E", rule_e),
                     ("C03-G", rule_g)):
